@@ -38,6 +38,8 @@ package utils
 //@ ensures [H] old(rd.spos) <= rd.spos && rd.spos <= rd.sn && rd.spos <= old(rd.spos) + n
 //@ ensures [H] rd.sfault == nil ==> old(rd.sfault) == nil
 //@ ensures [H] result1 != nil && rd.sfault == nil ==> (result1 == io.EOF && rd.spos == rd.sn)
+//@ ensures [H] old(rd.sgreedy) && old(rd.sfault) == nil ==> rd.sfault == nil
+//@ loop 0 invariant old(rd.sgreedy) && old(rd.sfault) == nil ==> rd.sfault == nil
 //@ loop 0 invariant fresh(b) && len(b) == n && 0 <= num && num <= n
 //@ loop 0 invariant rd.spos == old(rd.spos) + num && rd.spos <= rd.sn
 //@ loop 0 invariant forall i int :: 0 <= i && i < num ==> b[i] == rd.sdata[old(rd.spos) + i]
